@@ -90,12 +90,13 @@ impl TryFrom<(FeelNumber, FeelNumber, FeelNumber)> for FeelDate {
   type Error = DmntkError;
   /// Converts a tuple of numbers into [FeelDate].
   fn try_from(value: (FeelNumber, FeelNumber, FeelNumber)) -> Result<Self, Self::Error> {
-    let year = value.0.into();
-    if value.1 > FeelNumber::zero() && value.2 > FeelNumber::zero() {
-      let month = value.1.into();
-      let day = value.2.into();
-      if is_valid_date(year, month, day) {
-        return Ok(Self(year, month, day));
+    // the components must be integers within their ranges; nothing is truncated or wrapped
+    if let (Some(year), Some(month), Some(day)) = (value.0.to_isize(), value.1.to_isize(), value.2.to_isize()) {
+      if (-999_999_999..=999_999_999).contains(&year) && (1..=12).contains(&month) && (1..=31).contains(&day) {
+        let (year, month, day) = (year as i32, month as u8, day as u8);
+        if is_valid_date(year, month, day) {
+          return Ok(Self(year, month, day));
+        }
       }
     }
     Err(invalid_date(value.0.into(), value.1.into(), value.2.into()))
